@@ -90,7 +90,7 @@ def main():
     key = (alg, op.value, mode_name(cfg), bool(wt.symmetric),
            str(getattr(wt.granularity, 'value', wt.granularity)))
     accepted.setdefault(key, cfg)
-  reps = 3 if tier == 'thorough' else 1
+  reps = 6 if tier == 'thorough' else 2
   models = {}
   for (alg, opn, mode, wsym, gran), cfg in accepted.items():
     for rep in range(reps):
